@@ -35,7 +35,7 @@ pub fn speed_turn_world(net: &Net) -> World {
         feat_time_unit: TimeUnit::Seconds,
         init_dist: 0.0,
         init_time: 0.0,
-        turn: Some(TurnCfg { headings, delays: [0.0, 0.5, 1.0, 1.5, 2.0, 2.5, 3.0, 9.5], unit: TimeUnit::Seconds }),
+        turn: Some(TurnCfg { headings, delays: [0.0, 0.5, 1.0, 1.5, 2.0, 2.5, 3.0, 9.5], unit: TimeUnit::Seconds, blank_departure: vec![], no_departure_column: false }),
         w_dist: 0.0,
         w_time: 1.0,
         r_dist: Rate::Raw,
@@ -357,10 +357,23 @@ pub fn run(tier: Tier) -> i32 {
         }
     });
     st.merge(st2);
+    // the same with plain A* where edges are recorded shorter than the straight line between their end points (an estimate
+    // that is inconsistent at weight factor 1)
+    let sspecs = vec![GenSpec { n: 5, max_edges: tier.pick(4, 5), max_mult: 1, n_len: 3, self_loops: false, mode: LenMode::LineShort }];
+    let st3 = par_enumerate(&sspecs, |_spec, net, st| {
+        st.states += 1;
+        let w = World::distance(net.clone());
+        for algo in [Algo::AStar(None), Algo::AStar(Some(1.0))].iter() {
+            check_case(&w, algo, &Orient::Vertex { o: 0, d: Some(net.n - 1) }, false, st);
+            check_case(&w, algo, &Orient::Vertex { o: 0, d: Some(net.n - 1) }, true, st);
+        }
+    });
+    st.merge(st3);
     // Yen's algorithm can hang on this tree; its routes are put through the same clauses inside the sandbox of C13
     st.notes.insert("yens: route clauses of C01 are evaluated on Yen's routes by the sandboxed C13 check (signature yens.*/route_*)".into());
     let mut desc: Vec<String> = specs.iter().map(|s| s.describe()).collect();
     desc.extend(rspecs.iter().map(|s| format!("{} under A* weight factors 2/10 (re-opening sweep)", s.describe())));
+    desc.extend(sspecs.iter().map(|s| format!("{} under plain A* (re-opening sweep with an inconsistent estimate)", s.describe())));
     finish(
         &info,
         st,
